@@ -175,6 +175,23 @@ func apiPanics(e *Exec, fn *ssa.Function, a []Value) (res Value) {
 func (e *Exec) abstractCall(fn *ssa.Function, spec string, args []Value) Value {
 	e.rep.Stubs["abstract "+fn.String()+" => "+spec]++
 	symName := spec
+	if i := strings.Index(spec, "@blockfn"); i >= 0 {
+		// method (recv, dst, src []byte): dst[:len(src)] = SYM(src)
+		symName = spec[:i]
+		dst, src := args[1].(Slice), args[2].(Slice)
+		if dst.Len < src.Len {
+			panic(&targetPanic{val: e.strConst("block function: output smaller than input"), site: e.where()})
+		}
+		if src.Len == 0 {
+			return nil
+		}
+		in := e.tb.Concat(e.bytesOf(src)...)
+		whole := e.tb.UF(ufName(symName, []*sym.Term{in}), in.W, in)
+		for k := 0; k < src.Len; k++ {
+			e.setCell(dst.Obj, dst.Off+k, e.tb.Extract(whole, in.W-1-8*k, in.W-8-8*k))
+		}
+		return nil
+	}
 	if i := strings.Index(spec, "@inplace:"); i >= 0 {
 		symName = spec[:i]
 		var off, n int
